@@ -168,6 +168,18 @@ func (x *exec) wantInline(fr *frame, fn *ssa.Function) bool {
 
 func (x *exec) staticCall(fr *frame, s *State, fn *ssa.Function, bind []*Val, args []*Val, sig *types.Signature, resT types.Type, pos token.Pos) *Val {
 	key := fn.String()
+	if x.con != nil && x.con.CallSites != nil && fr.top {
+		for _, nm := range []string{fn.Name(), shortKey(key), key} {
+			for i, r := range x.con.CallSites[nm] {
+				label := r.Label
+				if label == "" {
+					label = fmt.Sprint(i + 1)
+				}
+				env := x.frameEnv(fr, s, pos)
+				x.oblig(fr, s, "callsite."+fn.Name(), label, pos, x.evalBool(r.E, env), r.Props)
+			}
+		}
+	}
 	if key == historyAppendKey {
 		x.appendSite(fr, s, args, pos)
 		x.note("utils.History.Append: stores the pair, runs nothing now (its own behaviour is C20)")
